@@ -312,6 +312,8 @@ def run_controlled(ctx, props, quick=120, thorough=4000):
             spec['rules'] = [{'type': 'prop', 'enc': rng.randrange(len(spec['elems']) + 1),
                               'target': gen.in_unit(rng, 'AngularPosition', rng.uniform(1, 50) if rng.random() < 0.7 else -rng.uniform(0.5, 20), True),
                               'mult': rng.uniform(1.1, 4), 'pmin': 0.2}]
+            if rng.random() < 0.3:
+                spec['rules'][0]['late'] = {'target': rng.choice([u for u in SI['AngularPosition'] if u != spec['rules'][0]['target'][1]])}
         elif focus < 0.55:
             spec['rules'] = [{'type': 'reach', 'enc': rng.randrange(len(spec['elems']) + 1),
                               'target': gen.in_unit(rng, 'AngularPosition', rng.uniform(-1, 3), True),
@@ -472,10 +474,10 @@ def eval_proposal(ctx, case):
     exp = rule_oracle(rl, st, tr)
     ctx.case_done(case, nontrivial=True)
     ctx.count(f"proposal {rl['type']} " + ('at the threshold' if case.get('edge') else 'off the threshold') + ' -> ' + exp[0])
-    ok = (got[0] == exp[0] == 'none') or (got[0] == exp[0] == 'val' and near(got[1], exp[1], 1.0, 1e-12))
+    ok = (got[0] == exp[0] == 'none') or (got[0] == exp[0] == 'val' and near(got[1], exp[1], 1.0, 1e-9 if rl.get('late') else 1e-12))
     if not ok:
         ctx.violation(case, {'why': f"the rule proposed {got}, documented {exp} (position {case['pos']} rad, load {case['load']} Nm)"})
-    if ctx.driver.available:
+    if ctx.driver.available and not rl.get('late'):
         # the same question to the Lean model (`Rule.apply` with exact comparisons: every operand is in SI units)
         R_ = R
         tg = R_(rl['target'][0])
@@ -516,6 +518,12 @@ def proposal_cases(ctx):
         else:
             rl = {'type': 'limit', 'enc': rng.randrange(2), 'tach': 0, 'target': [target, 'rad'], 'ilim': [rng.choice([1.0, 2.0, 3.0]), 'A']}
             pos = target + off
+        if not edge and rng.random() < 0.35:
+            # a parameter object of the rule re-expressed in place after the rule has been built (off the threshold: the
+            # comparison then converts, with its tolerance)
+            key = rng.choice([k for k in ('target', 'brake', 'ilim') if k in rl])
+            kind = {'target': 'AngularPosition', 'brake': 'Angle', 'ilim': 'Current'}[key]
+            rl['late'] = {key: rng.choice([u for u in SI[kind] if u != rl[key][1]])}
         eval_proposal(ctx, {'t': 'proposal', 'rule': rl, 'pos': pos, 'speed': rng.randint(0, 64) / 4, 'load': load, 'edge': edge})
 
 
